@@ -621,6 +621,60 @@ def run_history(block, ctx):
     ctx.sample(block[len(block) // 2])
 
 
+# -- the comparison tolerance carried by an operand is not part of its value --------------------------------
+
+TOL_LEFTS = [90.0, -12.5, 0.5, 1e-3, 359.999, 0.0]
+TOL_RIGHTS = [0.5, 2.0, -7.0, 1e-3, 1e-8, 123.456]
+TOL_VALUES = [1.0, 1e-3, 0.0]
+
+
+def check_operand_tolerance(case):
+    """Every binary operator (plain and in-place) with Angle, float and int right operands is evaluated once with
+    default-tolerance operands and again after set_tolerance() on the LEFT operand (a copy of a coarse Angle
+    behaves the same): value, or exception class, must not change - what an operator computes depends on the
+    operands' values.  (The right operand of / and % is left alone: the class documents that a divisor smaller
+    than its own tolerance counts as zero.)"""
+    x, y, tol = case["left"], case["right"], case["tol"]
+    out = []
+    for op in BINOPS:
+        for kind in ("plain", "inplace"):
+            for t in ("Angle", "float"):
+                def run(left):
+                    try:
+                        r = apply_bin(left, op, kind, operand(t, y))
+                        return ("ok", repr(r._deg) if isinstance(r, Angle) else repr(r))
+                    except Exception as ex:
+                        return ("exc", type(ex).__name__)
+                ref = run(Angle(x))
+                a = Angle(x)
+                a.set_tolerance(tol)
+                got = run(a)
+                b = Angle(a)                # copy of a coarse-tolerance Angle
+                got2 = run(b)
+                for lab, g in (("after set_tolerance(%r)" % tol, got), ("as a copy of such an Angle", got2)):
+                    if g != ref:
+                        out.append("%s %s of Angle(%r) and %s(%r) gives %r %s, %r with the default tolerance"
+                                   % (kind, op, x, t, y, g, lab, ref))
+    return out
+
+
+def operand_tolerance_cases():
+    return [{"left": x, "right": y, "tol": tol} for x in TOL_LEFTS for y in TOL_RIGHTS for tol in TOL_VALUES]
+
+
+def run_operand_tolerance(block, ctx):
+    for case in block:
+        ctx.evals += len(BINOPS) * 2 * 2 * 3
+        ctx.transitions += len(BINOPS) * 2 * 2 * 2
+        ctx.states += 1
+        ctx.traces += 1
+        ctx.nt_count += 1
+        for msg in check_operand_tolerance(case):
+            ctx.viol(case, msg, site="operand_tolerance")
+        ctx.outcome((case["tol"],))
+    ctx.sample(block[0])
+
+
 def ctor_values():
     vals = set()
     for m in MAGS:
@@ -643,6 +697,8 @@ def clauses(tier):
         Clause("sexagesimal", chunks(dms, 32), run_ctor3,
                lambda c: [m for _, m, _ in check_ctor3(c)], floor=3000),
         Clause("operator_bfs", specs, run_bfs, replay_bfs, floor=5000, shape="H"),
+        Clause("operand_tolerance", chunks(operand_tolerance_cases(), 8), run_operand_tolerance,
+               check_operand_tolerance, floor=50, shape="H"),
         Clause("object_history", chunks(history_cases(4 if tier == "thorough" else 3), 32),
                run_history, check_history, floor=1000, shape="H"),
     ]
